@@ -118,9 +118,12 @@ def run_shard(params, rec):
         rec.ev()
         rec.count("programs:" + spec.mname)
         outs = {}
+        # a finite per-call limit: a guest loop whose counter got clobbered must come back to the
+        # step budget instead of spinning inside one translated block for ever
+        opts = dict(max_exec_per_call=rng.choice([1, 4, 32]), jit_maxline=rng.choice([50, 50, 7]))
         try:
             for be in ("python", "gcc"):
-                outs[be] = jitlib.run(spec, be, prog, breakpoints=bps, max_steps=300, trace=True)
+                outs[be] = jitlib.run(spec, be, prog, options=opts, breakpoints=bps, max_steps=300, trace=True)
         except Exception as exc:
             # building a jitter / mapping memory failed: harness trouble, not a verdict
             rec.count("harness_run_error")
